@@ -304,7 +304,11 @@ func runCaseRecover(m *Monitor, ctx *CaseCtx) (res CaseResult) {
 			res.Violations = append(res.Violations, Violation{Prop: "HARNESS", Key: "harness-panic", Msg: fmt.Sprintf("monitor panicked: %v\n%s", p, debug.Stack())})
 		}
 		clearCaseHooks()
+		caseTrace = false
 	}()
+	// a fixed subset of the cases (19 is coprime with the worker stride) runs
+	// with trace logging switched on in every world it makes
+	caseTrace = ctx.Idx%19 == 6
 	return m.Run(ctx)
 }
 
